@@ -127,6 +127,8 @@ def lines(ctx):
     for i in range(256):
         progs.append(["OP_x%02x" % i])
         progs.append(["x%02X" % i])
+    for w in ESCAPE_REGRESSION:
+        progs.append([w])
     # integers at the boundaries of every encoded length
     for v in int_boundaries():
         progs.append([str(v)])
@@ -221,12 +223,81 @@ def minimal(o, d):
     return True
 
 
-def region(case, im, mo, sp):
-    ws = [bytes.fromhex(w).lower() if w != "-" else b"" for w in case.split(" ")[1:]]
-    import re
-    if any(re.search(rb"(^|[\s\[])(op_)?xff($|[\s\]])", w) for w in ws):
-        return "F-C07-opxff"
-    return None
+def min_push(d):
+    """Bitcoin's minimal push of the bytes d, written here independently of the Lean specification and of the C++"""
+    if len(d) == 0:
+        return b"\x00"
+    if len(d) == 1 and 1 <= d[0] <= 16:
+        return bytes([0x50 + d[0]])
+    if len(d) == 1 and d[0] == 0x81:
+        return b"\x4f"
+    if len(d) <= 75:
+        return bytes([len(d)]) + d
+    if len(d) <= 255:
+        return b"\x4c" + bytes([len(d)]) + d
+    if len(d) <= 65535:
+        return b"\x4d" + len(d).to_bytes(2, "little") + d
+    return b"\x4e" + len(d).to_bytes(4, "little") + d
+
+
+# the texts of the repaired finding F-C07-opxff (/repo a4419d3: GetOpCode's "not an opcode" value 0xff hid the escape for byte ff)
+ESCAPE_REGRESSION = ["OP_xff", "xff", "[OP_xff]", "OP_xfe", "OP_xFF", "OP_xf", "OP_xfff"]
+
+
+def escape_cases():
+    """The escape OP_xNN / xNN for EVERY byte NN (ff included), alone, inside brackets and between other tokens, with the
+    expectation computed here from the grammar: a name token is its opcode byte, a bracket is the minimal push of its
+    compiled body.  A malformed escape (one or three digits, a non-hex digit, a capital X, ...) is no token of the
+    grammar: the assembler keeps such a word as a string and pushes its characters.
+    -> [(argv words, expected output bytes, is a program of the grammar)]"""
+    cases = []
+    for i in range(256):
+        b = bytes([i])
+        for sp in ("OP_x%02x", "x%02x", "OP_x%02X", "x%02X"):
+            w = sp % i
+            cases.append(([w], b, True))
+            cases.append((["[" + w + "]"], min_push(b), True))
+            cases.append((["[ [" + w + "] " + w + " ]"], min_push(min_push(b) + b), True))
+        cases.append((["[OP_x%02x x%02x]" % (i, 255 - i)], min_push(bytes([i, 255 - i])), True))
+        cases.append((["OP_1", "OP_x%02x" % i, "[", "x%02x" % i, "]", "OP_x%02x" % i, "0x%02x" % i],
+                      b"\x51" + b + min_push(b) + b + min_push(b), True))
+    for w, v in (("OP_xfF", 0xff), ("xFf", 0xff), ("OP_xaB", 0xab), ("xAb", 0xab), ("OP_x0A", 0x0a), ("xa0", 0xa0)):
+        cases.append(([w], bytes([v]), True))
+    cases.append((["ff"], b"\x01\xff", True))          # a hex literal, not the escape: a push of the byte
+    cases.append((["0xff"], b"\x01\xff", True))
+    for w in ("OP_xf", "OP_xfff", "xf", "xfff", "xffff", "OP_xffff", "OP_x", "x", "OP_xfg", "OP_xgf", "xg0", "OP_Xff", "Xff", "op_xff",
+              "OP_OP_xff", "OP_xff_", "_xff", "OP_x-1", "OP_x+f", "OP_x0xff", "INVALIDOPCODE", "OP_INVALIDOPCODE"):
+        cases.append(([w], min_push(w.encode()), False))
+        cases.append((["[" + w + "]"], min_push(min_push(w.encode())), False))
+    for w in ESCAPE_REGRESSION:
+        assert any(c[0] == [w] for c in cases), w
+    return cases
+
+
+def run_escape(ctx):
+    cases = escape_cases()
+    el = ["BTCC " + " ".join(w.encode("latin1").hex() for w in p) for p, _, _ in cases]
+    want = ["OK " + e.hex() for _, e, _ in cases]
+    eimpl = ctx.harness(el)
+    emodel = ctx.driver(el, "model")
+    espec = ctx.driver(el, "spec")
+    # implementation / model / the expectation written in this file
+    ctx.compare("btcc-escape", el, eimpl, emodel, want, nontrivial=lambda c, i: i.startswith("OK"))
+    # ... and the Lean specification says the same on the programs of the grammar and rejects the malformed spellings
+    for l, s, w, (_, _, tok) in zip(el, espec, want, cases):
+        if s != (w if tok else "OUT-OF-GRAMMAR"):
+            ctx.violation(l, {"stream": "btcc-escape", "why": "the specification's reading of an escape word differs from the grammar as written in checks/c07.py",
+                              "spec": s, "expected": w if tok else "OUT-OF-GRAMMAR"})
+            break
+    # the named regression texts on the real btcc binary
+    for w in ESCAPE_REGRESSION:
+        exp = next(e for p, e, _ in cases if p == [w])
+        r = subprocess.run([os.path.join(ctx.bin, "btcc"), w], stdout=subprocess.PIPE, stderr=subprocess.PIPE, timeout=20)
+        got = ("OK " + r.stdout.decode("latin1").strip()) if r.returncode == 0 else "EXIT%d" % r.returncode
+        if got != "OK " + exp.hex():
+            ctx.violation("BTCC " + w.encode().hex(), {"stream": "btcc-escape-binary", "impl": got, "spec": "OK " + exp.hex(),
+                                                       "why": "the btcc binary differs from the grammar on an escape word"})
+    ctx.count("btcc-escape-binary", len(ESCAPE_REGRESSION))
 
 
 def run(ctx):
@@ -237,8 +308,9 @@ def run(ctx):
     # programs outside the input grammar of the statement are compared impl vs model only
     spec2 = [m if s == "OUT-OF-GRAMMAR" else s for s, m in zip(spec, model)]
     ingram = sum(1 for s in spec if s != "OUT-OF-GRAMMAR")
-    ctx.compare("btcc-inprocess", ls, impl, model, spec2, region=region, nontrivial=lambda c, i: i.startswith("OK"))
+    ctx.compare("btcc-inprocess", ls, impl, model, spec2, nontrivial=lambda c, i: i.startswith("OK"))
     ctx.notes.append({"programs_in_grammar": ingram, "programs_total": len(ls)})
+    run_escape(ctx)
     # the nesting limit (value.h DepthGuard): the grammar of the statement has none, so this stream compares the
     # implementation with the model (theorems btcc_eq_compile / btcc_refuses_deep state both sides of the limit)
     dl = depth_lines()
@@ -265,7 +337,9 @@ def run(ctx):
                 ctx.violation(l, {"why": "assembled output does not decode or contains a non-minimal push", "impl": i})
     # the real btcc binary on a subsample
     rnd = random.Random(ctx.seed + 77)
-    idx = rnd.sample(range(len(progs)), min(len(progs), 500 if ctx.tier == "quick" else 5000))
+    # (a single argv string is limited to 128 KiB by the kernel: the 65535/65536-byte literals are in-process only)
+    cand = [k for k in range(len(progs)) if all(len(w) < 100000 for w in progs[k])]
+    idx = rnd.sample(cand, min(len(cand), 500 if ctx.tier == "quick" else 5000))
 
     def one(k):
         p = [w for w in progs[k] if "\x00" not in w]
@@ -279,7 +353,7 @@ def run(ctx):
     with ThreadPoolExecutor(max_workers=16) as ex:
         outs = list(ex.map(one, idx))
     sub = [ls[k] for k in idx]
-    ctx.compare("btcc-binary", sub, outs, [model[k] for k in idx], [spec2[k] for k in idx], region=region, nontrivial=lambda c, i: i.startswith("OK"))
+    ctx.compare("btcc-binary", sub, outs, [model[k] for k in idx], [spec2[k] for k in idx], nontrivial=lambda c, i: i.startswith("OK"))
 
 
 def replay(ctx, case):
